@@ -242,7 +242,9 @@ func (ab *dsAddrBook) loadRecord(id peer.ID, cache bool, update bool) (pr *addrs
 		pr.Lock()
 		defer pr.Unlock()
 
-		if pr.clean(ab.clock.Now()) && update {
+		// A record emptied by expiry is flushed (deleted) even for read-only loads:
+		// nothing else would ever do it, the record is clean from now on.
+		if pr.clean(ab.clock.Now()) && (update || len(pr.Addrs) == 0) {
 			err = pr.flush(ab.ds)
 		}
 		return pr, err
@@ -261,7 +263,7 @@ func (ab *dsAddrBook) loadRecord(id peer.ID, cache bool, update bool) (pr *addrs
 			return nil, err
 		}
 		// this record is new and local for now (not in cache), so we don't need to lock.
-		if pr.clean(ab.clock.Now()) && update {
+		if pr.clean(ab.clock.Now()) && (update || len(pr.Addrs) == 0) {
 			err = pr.flush(ab.ds)
 		}
 	default:
